@@ -32,5 +32,14 @@ for p in props:
                             "level_note": c["note"], "technique": c["technique"]})
     else:
         m["not_applicable"].append({"property_id": i, "reason": "check under construction (planned per DESIGN.md §4); not claimed until its TLA+ spec and conformance harness are committed"})
+# extension checks: behaviour beyond the listed properties (same run contract; not part of the property list)
+try:
+    from claims import EXTENSIONS
+except ImportError:
+    EXTENSIONS = {}
+m["extensions"] = [{"id": i, "subject": e["subject"], "quick_cmd": "./run.py %s --tier quick" % i,
+                    "thorough_cmd": "./run.py %s --tier thorough" % i, "evidence_file": "evidence/%s.json" % i,
+                    "specs": e["specs"], "statement_in": e["statement_in"]}
+                   for i, e in sorted(EXTENSIONS.items()) if os.path.exists(os.path.join(V, "checks", i.lower() + ".py"))]
 json.dump(m, open(os.path.join(V, "MANIFEST.json"), "w"), indent=1)
 print("claimed:", [c["property_id"] for c in m["checks"]])
